@@ -1,5 +1,6 @@
 // modified from crossbeam
 
+use std::any::Any;
 use std::cell::RefCell;
 use std::fmt;
 use std::mem;
@@ -87,9 +88,19 @@ where
     let mut scope = Scope {
         dtors: RefCell::new(None),
     };
-    let ret = f(&scope);
-    scope.drop_all();
-    ret
+    // the scoped coroutines must not be waited by `Scope::drop` while a panic (of the owner
+    // or of a child, re-thrown by its join) unwinds this frame: a coroutine that blocks
+    // while unwinding may be resumed on another thread, where `thread::panicking()` is
+    // false (the panic count is thread local), then the panic of the next child would be
+    // re-thrown inside the destructor and abort the process.
+    // catch the panic, wait for all the coroutines and only then go on with the unwinding
+    let ret = panic::catch_unwind(panic::AssertUnwindSafe(|| f(&scope)));
+    let dtor_panic = scope.drop_all();
+    match (ret, dtor_panic) {
+        (Ok(ret), None) => ret,
+        // the panic of the owner takes precedence, only the first panic is propagated
+        (Err(e), _) | (Ok(_), Some(e)) => panic::resume_unwind(e),
+    }
 }
 
 impl fmt::Debug for Scope<'_> {
@@ -105,12 +116,10 @@ impl<T> fmt::Debug for ScopedJoinHandle<T> {
 }
 
 impl<'a> Scope<'a> {
-    // This method is carefully written in a transactional style, so
-    // that it can be called directly and, if any dtor panics, can be
-    // resumed in the unwinding this causes. By initially running the
-    // method outside of any destructor, we avoid any leakage problems
-    // due to @rust-lang/rust#14875.
-    fn drop_all(&mut self) {
+    // run all the dtors, also when some of them panic (a scoped coroutine that panicked
+    // re-throws in its join). return the first panic, the caller decides what to do with it
+    fn drop_all(&mut self) -> Option<Box<dyn Any + Send>> {
+        let mut panic = None;
         loop {
             // use a separate scope to ensure that the RefCell borrow
             // is relinquished before running `dtor`
@@ -120,10 +129,12 @@ impl<'a> Scope<'a> {
                     *dtors = node.next.take().map(|b| *b);
                     node.dtor
                 } else {
-                    return;
+                    return panic;
                 }
             };
-            dtor();
+            if let Err(e) = panic::catch_unwind(panic::AssertUnwindSafe(dtor)) {
+                panic.get_or_insert(e);
+            }
         }
     }
 
@@ -221,6 +232,7 @@ impl<T> ScopedJoinHandle<T> {
 
 impl Drop for Scope<'_> {
     fn drop(&mut self) {
-        self.drop_all()
+        // `scope` has already run all the dtors
+        self.drop_all();
     }
 }
